@@ -151,7 +151,10 @@ def commands_for(framing, idx):
     else:
         lens = (0, 1, 16, 86, 140, 255)
         kinds = (("010200", "0182"), ("010600", "0186"), ("010900", "0189"))
-        out.append(CmdCtx("aa55", kinds[idx % 3], 0, 0, 0, _payload(("pattern", "ff", "zero")[idx % 3], lens[idx % 6], idx)))
+        # (idx // 6) decouples the content class from the length so that e.g. the maximal all-0xFF frame (byte sum > 0xFFFF) occurs
+        out.append(CmdCtx("aa55", kinds[idx % 3], 0, 0, 0, _payload(("pattern", "ff", "zero", "fe")[(idx // 6) % 4], lens[idx % 6], idx)))
+        if idx % 6 == 5:
+            out.append(CmdCtx("aa55", kinds[(idx // 6) % 3], 0, 0, 0, b"\xff" * (250 + idx % 6)))
         c = (1, 4, 6, 100)[idx % 4]
         out.append(CmdCtx("aa55", "read", 0, (0x701, 0x560, 0, 0xFFFF)[idx % 4], c, _payload("pattern", 2 * c, idx)))
         out.append(CmdCtx("aa55", "write", 0, 0x560, (0, 50, -1, 32767)[idx % 4], b"\x06"))
